@@ -67,6 +67,7 @@ type timeCodecs struct {
 	nullStr avro.Codec            // struct{T null.Time} under {"type":"string"}
 	recStr  avro.Codec            // struct{T time.Time} under {"type":"string"}
 	date    avro.Codec            // struct{T time.Time} under {"type":"int","logicalType":"date"}
+	dateU   avro.Codec            // the same under ["null", date]: only the zero time.Time is null
 	long    map[string]avro.Codec // ns / us / ms
 	longU   map[string]avro.Codec // the same under ["null", T]: only the zero time.Time is null
 	err     error
@@ -104,6 +105,7 @@ func buildTimeCodecs() *timeCodecs {
 	set(&tc.nullStr, `"string"`, recNullTime{})
 	set(&tc.recStr, `"string"`, recTime{})
 	set(&tc.date, `{"type":"int","logicalType":"date"}`, recTime{})
+	set(&tc.dateU, `["null",{"type":"int","logicalType":"date"}]`, recTime{})
 	for k, schema := range map[string]string{
 		"ns": `{"type":"long"}`,
 		"us": `{"type":"long","logicalType":"timestamp-micros"}`,
@@ -258,6 +260,18 @@ func newExecTime() func(op string, args []sx) sx {
 				r := avro.NewReadBuf(append([]byte(nil), bs...))
 				if err := tc.date.Read(r, unsafe.Pointer(&d)); err != nil || r.Len() != 0 {
 					return T("w", H(bs), errSx)
+				}
+				// the same value in a nullable field: the non-null branch with the same bytes, unless it is the zero time.Time
+				if tc.dateU != nil {
+					wu := avro.NewWriteBuf(nil)
+					tc.dateU.Write(wu, unsafe.Pointer(&src))
+					expect := append([]byte{2}, bs...)
+					if src.T.IsZero() {
+						expect = []byte{0}
+					}
+					if !bytes.Equal(wu.Bytes(), expect) {
+						return T("w", H(bs), T("nullable-field-wrote", H(wu.Bytes()), A("expected"), H(expect)))
+					}
 				}
 				return T("w", H(bs), okTime(d.T))
 			})
